@@ -87,12 +87,12 @@ example : sizeFinal real_cro_v0 = some [⟨1, none⟩] := by decide
 
 /-! ### Per-template obligations on the regenerated trees -/
 theorem real_ga_v0_size : sizeWithin real_ga_v0 6 (some 6) = true := by decide
-theorem real_ga_v1_size : sizeWithin real_ga_v1 10 (some 10) = true := by decide
-theorem real_ga_v2_size : sizeWithin real_ga_v2 4 (some 4) = true := by decide
+theorem real_ga_v1_size : sizeWithin real_ga_v1 9 (some 9) = true := by decide
+theorem real_ga_v2_size : sizeWithin real_ga_v2 5 (some 5) = true := by decide
 theorem real_ga_v3_size : sizeWithin real_ga_v3 2 (some 2) = true := by decide
 theorem binary_ga_v0_size : sizeWithin binary_ga_v0 6 (some 6) = true := by decide
-theorem binary_ga_v1_size : sizeWithin binary_ga_v1 10 (some 10) = true := by decide
-theorem binary_ga_v2_size : sizeWithin binary_ga_v2 4 (some 4) = true := by decide
+theorem binary_ga_v1_size : sizeWithin binary_ga_v1 9 (some 9) = true := by decide
+theorem binary_ga_v2_size : sizeWithin binary_ga_v2 5 (some 5) = true := by decide
 theorem binary_ga_v3_size : sizeWithin binary_ga_v3 2 (some 2) = true := by decide
 theorem real_es_v0_size : sizeWithin real_es_v0 3 (some 3) = true := by decide
 theorem real_es_v1_size : sizeWithin real_es_v1 5 (some 5) = true := by decide
